@@ -10,6 +10,7 @@ from .model import AnalysisError, ClassInfo, FuncInfo, Program
 from .walk import Event, State, Walker
 
 _PATH_CACHE: Dict[tuple, List[State]] = {}
+ANALYSED: Dict[tuple, int] = {}  # (context, function) -> paths enumerated, for the evidence of the running check
 _TYPED_CACHE: Dict[tuple, Dict[str, Set[str]]] = {}
 
 
@@ -17,16 +18,19 @@ def paths(prog: Program, ctx: Optional[str], func: FuncInfo, inline: str = "ligh
           no_inline: Tuple[str, ...] = (), force_inline: Tuple[str, ...] = (), param_types: Optional[dict] = None,
           max_states: int = 4000) -> List[State]:
     key = (id(prog), ctx, func.qualname, inline, no_inline, force_inline, tuple(sorted((param_types or {}).items())))
+    ANALYSED[(ctx or "", func.qualname)] = max(ANALYSED.get((ctx or "", func.qualname), 0), len(_PATH_CACHE[key]) if key in _PATH_CACHE else 0)
     if key not in _PATH_CACHE:
         pt = {"second": "<ctx>"} if second else {}
         pt.update(param_types or {})
         w = Walker(prog, ctx, inline=inline, param_types=pt, no_inline=no_inline, force_inline=force_inline,
                    max_states=max_states)
         _PATH_CACHE[key] = w.run(func)
+        ANALYSED[(ctx or "", func.qualname)] = max(ANALYSED.get((ctx or "", func.qualname), 0), len(_PATH_CACHE[key]))
     return _PATH_CACHE[key]
 
 
 def clear_caches():
+    ANALYSED.clear()
     _PATH_CACHE.clear()
     _TYPED_CACHE.clear()
 
